@@ -115,6 +115,8 @@ def walk_pat(p):
             yield from walk_pat(p[key])
     for q in p.get("pats", []):
         yield from walk_pat(q)
+    if "rest_pat" in p:
+        yield from walk_pat(p["rest_pat"])
     for f in p.get("fields", []):
         yield from walk_pat(f["pat"])
 
@@ -495,6 +497,11 @@ def pat_binding_projs(pat, proj=()):
     elif k == "Tuple":
         for i, q in enumerate(pat["pats"]):
             out += pat_binding_projs(q, proj + (("tuple", str(i)),))
+    elif k == "Slice":
+        for i, q in enumerate(pat["pats"]):
+            out += pat_binding_projs(q, proj + (("[]",),))
+        if "rest_pat" in pat:
+            out += pat_binding_projs(pat["rest_pat"], proj)
     elif k in ("Box", "Deref", "Ref", "Guard"):
         out += pat_binding_projs(pat["inner"], proj)
     elif k == "Or":
@@ -816,6 +823,11 @@ def decision_paths(body):
             e = st.get("init") if st["k"] == "Let" else st.get("e")
             if e is None:
                 return stmts(i + 1, conds)
+            if st["k"] == "Let" and "els" in st:
+                # let PAT = init else { diverges }: the else block under !PAT, the rest under PAT
+                pc = {"k": "PatCond", "pat": st["pat"], "scrut": e, "id": e.get("id"), "sp": e.get("sp")}
+                block(st["els"], conds + [(pc, False)], lambda c2, v: out.append((c2, {"k": "?", "why": "let-else falls through", "sp": e.get("sp")})))
+                return stmts(i + 1, conds + [(pc, True)])
             return expr(e, conds, lambda c2, v: stmts(i + 1, c2))
         return stmts(0, conds)
 
@@ -839,6 +851,18 @@ def decision_paths(body):
                 expr(e["else"], conds + [(c, False)], k)
             else:
                 k(conds + [(c, False)], None)
+            return
+        if kind == "Match" and not e.get("source", "").startswith(("ForLoop", "TryDesugar")):
+            prior = []
+            for a in e["arms"]:
+                pc = {"k": "PatCond", "pat": a["pat"], "scrut": e["scrut"], "id": a["body"].get("id"), "sp": e.get("sp")}
+                cs = conds + prior + [(pc, True)]
+                if "guard" in a:
+                    cs = cs + [(a["guard"], True)]
+                    prior = prior + [({"k": "ArmNot", "pat": a["pat"], "scrut": e["scrut"], "guard": a["guard"], "sp": e.get("sp")}, True)]
+                else:
+                    prior = prior + [(pc, False)]
+                expr(a["body"], cs, k)
             return
         if kind in ("Loop", "Match"):
             return k(conds, {"k": "?", "why": kind, "sp": e.get("sp")})
